@@ -267,7 +267,7 @@ Lemma sites_check_filtered : check (filter (fun s => negb (known_site s)) sites)
 Proof. vm_compute. reflexivity. Qed.
 
 (* the known sites exist in the current table and every one of them is flagged on its own *)
-Lemma known_sites_present : List.length (filter known_site sites) = 1%nat.
+Lemma known_sites_present : List.length (filter known_site sites) = 0%nat.
 Proof. vm_compute. reflexivity. Qed.
 
 Lemma known_sites_flagged : forallb (fun s => negb (check [s])) (filter known_site sites) = true.
@@ -280,11 +280,11 @@ Proof.
   destruct (check [s]); [discriminate|reflexivity].
 Qed.
 
-(* so the unexcused current table is refuted *)
-Theorem sites_not_leak_free : ~ leak_free sites.
-Proof.
-  intros H. apply check_sound_complete in H. revert H. vm_compute. discriminate.
-Qed.
+(* no site is excused any more: the whole current table is leak free *)
+Lemma sites_check_full : check sites = true.
+Proof. vm_compute. reflexivity. Qed.
+Theorem sites_leak_free_full : leak_free sites.
+Proof. apply check_sound_complete. exact sites_check_full. Qed.
 
 (* hand-written Debug impls: none of their sinks leaks, and the types that must redact have one *)
 Lemma sites_debug_impls_clean : debug_impls_clean sites = true.
